@@ -36,7 +36,7 @@ def check(run):
     recs = []
     if "harness" not in fails:
         n, _ = gen_counts(run.tier)
-        for sub, args in (("directed", []), ("gen", [n])):
+        for sub, args in (("directed", cc.directed_args(run.tier)), ("gen", [n])):
             rc, rs, err = cc.harness_records(sub, args, run.seed)
             if rc != 0:
                 broken.append("harness cql %s failed rc=%s: %s" % (sub, rc, err))
@@ -56,12 +56,13 @@ def check(run):
     byid = {r["id"]: r for r in cases}
     spec_bad = model_bad = []
     if model_ok and usable:
-        ok1, spec_bad, log1 = cc.eval_cases("Cases_C12_spec", [], spec_cases)
-        ok2, model_bad, log2 = cc.eval_cases("Cases_C12_model", [], model_cases)
+        # one file per shard holds both comparisons of a case: "<id>.spec" and "<id>.model"
+        both = [(cid + ".spec", e) for cid, e in spec_cases] + [(cid + ".model", e) for cid, e in model_cases]
+        ok1, bad, log1 = cc.eval_cases("Cases_C12", [], both)
+        spec_bad = [b[:-5] for b in bad if b.endswith(".spec")]
+        model_bad = [b[:-6] for b in bad if b.endswith(".model")]
         if not ok1:
-            broken.append("specification oracle file does not evaluate: " + log1[-400:])
-        if not ok2:
-            broken.append("correspondence file does not evaluate: " + log2[-400:])
+            broken.append("specification oracle / correspondence file does not evaluate: " + log1[-400:])
         if model_bad:
             broken.append("correspondence: model_encode disagrees with the compiled code on cases %s" % model_bad[:20])
         if spec_bad:
